@@ -240,6 +240,16 @@ func propC12Sequential(t *rapid.T) {
 			clk.advance(iv * time.Duration(rapid.IntRange(1, 9).Draw(rt, "tenths")) / 10)
 			hist = append(hist, "e")
 		},
+		"reconfigure": func(rt *rapid.T) {
+			// the exported configuration fields are the caller's: assigning to them after the syncer has started
+			// (e.g. when the real configuration arrives after start-up logging) changes nothing - size and
+			// interval were fixed at the first use
+			if !initialized {
+				rt.Skip("not started yet")
+			}
+			bws.Size = rapid.SampledFrom([]int{1, 8, 64, 4096, 1 << 20}).Draw(rt, "newSize")
+			hist = append(hist, fmt.Sprintf("cfg(Size=%d)", bws.Size))
+		},
 		"sync": func(*rapid.T) {
 			_, _, s0, _ := sink.state()
 			if err := bws.Sync(); err != nil {
